@@ -40,6 +40,7 @@ ONESHOT = (3, 4)
 LISTENERS = (1, 2, 3, 4)
 REGS = ("cfg", "avail", "ev")
 MAXV = 6
+MAXFLIGHT = 12       # calls in flight the trace configurations allow for (MaxTasks / MaxOps = 16)
 ALIAS = "alias-cfg"
 SERIAL = "00000030-0000-1000-8000-0026BB765291"
 BAD = -9
@@ -452,7 +453,7 @@ class World:
         from aiohomekit.model.status_flags import StatusFlags
         from aiohomekit.zeroconf import HomeKitService
         c = int(c)
-        if not 1 <= c <= self.accv:
+        if not 1 <= c <= self.accv or self._inflight() >= MAXFLIGHT:
             return None
         self._begin("desc", c=c)
         self.ndesc += 1
@@ -507,17 +508,29 @@ class World:
             r.fut.set_result(r.payload)
         return self._end()
 
+    def _inflight(self):
+        return self.conn.waiting + len(self.conn.pending)
+
     def list(self):
+        if self._inflight() >= MAXFLIGHT:
+            return None
         self._begin("list")
         self._spawn(self.pairing.list_accessories_and_characteristics(), "ret_list")
         return self._end()
 
     def pop(self, force):
+        if self._inflight() >= MAXFLIGHT:
+            return None
         self._begin("pop", force=bool(force))
         self._spawn(self.pairing.async_populate_accessories_state(force_update=bool(force)), "ret_pop")
         return self._end()
 
     def restore(self, v):
+        # only where the specification considers it (see UserRestore): nothing in flight, nothing older than what the
+        # pairing holds or has been shown
+        o = self.obs()
+        if o["nw"] + o["nq"] or min(o["pcfg"], o["pacc"]) < -1 or not max(o["pdesc"], o["pcfg"], o["pacc"], 1) <= int(v) <= self.accv:
+            return None
         self._begin("restore", v=int(v))
         _, exc = self.in_loop(lambda: self.pairing.restore_accessories_state(database(int(v)), self.cbase + int(v), None, None))
         if exc:
@@ -801,7 +814,7 @@ class BleWorld(World):
         from bleak.backends.device import BLEDevice
         from bleak.backends.scanner import AdvertisementData
         c, s = int(c), int(s)
-        if not 1 <= c <= self.accv:
+        if not 1 <= c <= self.accv or self._inflight() >= MAXFLIGHT:
             return None
         self._begin("desc", c=c, s=s)
         idb = bytes.fromhex(self.acc_id.lower().replace(":", ""))
@@ -831,6 +844,9 @@ class BleWorld(World):
         if not f.fut.done():
             f.fut.set_result(f.payload)
         return self._end()
+
+    def _inflight(self):
+        return self.obs()["nops"]
 
     def list(self):
         if self.pairing.description is None:
@@ -999,7 +1015,7 @@ class CoapWorld(World):
         from aiohomekit.model.status_flags import StatusFlags
         from aiohomekit.zeroconf import HomeKitService
         c = int(c)
-        if not 1 <= c <= self.accv:
+        if not 1 <= c <= self.accv or self._inflight() >= MAXFLIGHT:
             return None
         self._begin("desc", c=c)
         self.ndesc += 1
